@@ -24,7 +24,7 @@ func init() {
 		Assumptions: []string{"memcall.Interface methods perform the named syscalls", "memguard/core's init calls DisableCoreDumps (as its documentation and the source comment in protectedmemory state)", "sync.Cond.Wait keeps the lock held on return"},
 		Tech:        "static analysis: lock-state dataflow, must-pass-through and ordering (dominance) rules on SSA, applied to both SecretFactory back ends",
 		NeedU1:      true,
-		Rules:       []func(*Ctx){ruleC11GuardedFields, ruleC11Bracket, ruleC11ProtectionTransitions, ruleC11CloseWaitsAndOrders, ruleC11CoreDumps, ruleSecretFlagsMonotonic, lostUpdateRule("C11", "github.com/godaddy/asherah/go/securememory"), lockBalancedRule("C11", 10, lockDomSpec{pkgProt, "secretInternal", "rw"}, lockDomSpec{pkgMemg, "secret", "rw"}), nilContradictionRule("C12", false, "github.com/godaddy/asherah/go/securememory")},
+		Rules:       []func(*Ctx){ruleC11GuardedFields, ruleC11Bracket, ruleC11ProtectionTransitions, ruleC11CloseWaitsAndOrders, ruleC11CoreDumps, ruleSecretFlagsMonotonic, ruleC11PageStateUnderLock, condOnSameLockRule("C11", [4]string{pkgProt, "secretInternal", "rw", "c"}, [4]string{pkgMemg, "secret", "rw", "c"}), lostUpdateRule("C11", "github.com/godaddy/asherah/go/securememory"), lockBalancedRule("C11", 10, lockDomSpec{pkgProt, "secretInternal", "rw"}, lockDomSpec{pkgMemg, "secret", "rw"}), nilContradictionRule("C12", false, "github.com/godaddy/asherah/go/securememory")},
 	})
 }
 
@@ -126,8 +126,22 @@ func ruleC11GuardedFields(c *Ctx) {
 				return
 			}
 			_, fresh := base.(*ssa.Alloc)
-			okW := fresh || (f.Name() == "close" && f.Signature.Recv() != nil)
-			c.check(okW, trimPkgDirs(shortName(f))+"/bytes-write", u.ipos(i), "bytes written only by the constructor literal / close()", "secretInternal.bytes is reassigned outside the constructor and close(): readers inside the bracket could see another buffer")
+			// outside the constructor literal the only legal write drops the buffer for good: nil is stored, and on every
+			// path of the same function the secret is marked closed (close() after the teardown, the abandon step of a
+			// failed creation) — no reader can be inside the bracket of a closed secret
+			okW := fresh
+			if !okW && isNilConst(strip(st.Val)) && f.Signature.Recv() != nil {
+				okW, _ = mustPass(st.Block(), indexOf(st)+1, func(j ssa.Instruction) bool {
+					s2, isS := j.(*ssa.Store)
+					if !isS {
+						return false
+					}
+					_, f2, isF2 := fieldAccess(s2.Addr)
+					k, isC := constOf(s2.Val)
+					return isF2 && f2 == "closed" && isC && k.ExactString() == "true"
+				}, nil)
+			}
+			c.check(okW, trimPkgDirs(shortName(f))+"/bytes-write", u.ipos(i), "bytes written only by the constructor literal, or dropped (nil) together with closed = true", "secretInternal.bytes is reassigned outside the constructor without the secret being marked closed: readers inside the bracket could see another buffer")
 		})
 	}
 }
@@ -370,7 +384,7 @@ func isCounterZeroTest(v ssa.Value) bool {
 
 func ruleC11CloseWaitsAndOrders(c *Ctx) {
 	u := c.U1
-	c.rule("C11.close-waits-and-orders", "Close sets closing before waiting; destruction only on the accessCounter == 0 edge (lock held), otherwise Cond.Wait; every decrement is followed by Broadcast/Signal; close() is ordered Protect(ReadWrite) → wipe → Unlock → Free → closed=true; access refuses closing/closed before any Protect", 10)
+	c.rule("C11.close-waits-and-orders", "Close sets closing before waiting; destruction only on the accessCounter == 0 edge (lock held), otherwise Cond.Wait; every decrement is followed by Broadcast (Signal could wake the wrong one of several waiters); close() is ordered Protect(ReadWrite) → wipe → Unlock → Free → closed=true; access refuses closing/closed before any Protect", 10)
 	for _, be := range secBackends {
 		name := trimPkgDirs(be.pkg) + "." + be.typ
 		cl := u.Method(be.pkg, be.typ, "Close")
@@ -453,14 +467,14 @@ func ruleC11CloseWaitsAndOrders(c *Ctx) {
 			ok := false
 			allInstrs(rel, func(i ssa.Instruction) {
 				if df, isD := i.(*ssa.Defer); isD && instrDominates(i, dec) {
-					if g := staticCallee(df); g != nil && (funcFullName(g) == "(*sync.Cond).Broadcast" || funcFullName(g) == "(*sync.Cond).Signal") {
+					if g := staticCallee(df); g != nil && (funcFullName(g) == "(*sync.Cond).Broadcast") {
 						ok = true
 					}
 				}
 			})
 			if !ok {
 				ok, _ = mustPass(dec.Block(), indexOf(dec)+1, func(j ssa.Instruction) bool {
-					return staticIs(j, "(*sync.Cond).Broadcast") || staticIs(j, "(*sync.Cond).Signal")
+					return staticIs(j, "(*sync.Cond).Broadcast")
 				}, nil)
 			}
 			c.check(ok, name+".release/wakeup", u.ipos(dec), "decrement is followed by Broadcast on every path", "a reader can leave without waking a waiting Close (lost wake-up: Close blocks forever)")
